@@ -141,7 +141,8 @@ func runC07(c *Ctx) {
 	}
 	checkOptionWordMonotone(c, "C07.R6", "disabledOptions", 0,
 		"a negated modifier overwrites the ones parsed before it ($~third-party,~match-case keeps only the last): the added modifier does not raise the rule, so the selected rule can be outranked")
-	importRules(c, runC04, map[string]string{"C04.R10": "C07.R7"}, map[string]string{"C07.R7": "content-type modifiers are never taken back while a rule is parsed, so each one counts in the priority key (shared with C04.R10)"})
+	importRules(c, runC08, map[string]string{"C08.R1": "C07.R8", "C08.R2": "C07.R8"}, map[string]string{"C07.R8": "the candidates the selection scans are all the rules the badfilter filter leaves: a filter that stops early hands the scan a shorter list and the winner can be outranked by a dropped rule (shared with C08.R1/R2)"})
+	importRules(c, runC04, map[string]string{"C04.R10": "C07.R7", "C04.R12": "C07.R7"}, map[string]string{"C07.R7": "content-type modifiers are never taken back while a rule is parsed, so each one counts in the priority key (shared with C04.R10)"})
 	g := NewGate(c.P)
 	g.Unroll = true // a key summed by a loop over a small fixed table of its terms
 	s := g.Eval(ihp)
